@@ -7,69 +7,70 @@ dropped, compared case-insensitively), looks every name up in the registry, spli
 replaces a name by the entity's original name when the part used a USE/REFERENCE … AS alias, re-sorts with
 `EntNode::sort` when a name changed, and asks `ComplexCollect::supports`.
 
-`sortNodes` renders `EntNode::sort` with `lastSmaller`: the list is an ascending prefix followed by not yet ordered
-nodes; a node smaller than its predecessor is moved, together with the ascending run that follows it and still fits,
-to its place in the prefix.  `lastSmaller` compares strictly or not according to the *regenerated* `sortNonStrict`;
+`sortNodes` renders `EntNode::sort` with `lastSmaller` on the linked list as segments: the nodes up to `this` (an
+ascending prefix) and the nodes behind it; a node smaller than its predecessor is moved, together with the run that
+follows it and still fits, to its place in the prefix.  `lastSmaller` compares strictly or not according to the *regenerated* `sortNonStrict`;
 with strict comparisons equal names (two parts that resolve to the same entity) can make the second `lastSmaller`
 answer NULL, which `sort` dereferences: `Outcome.crash sortNullChunk`.
 -/
 namespace StepModel.Complex.Match
 open StepModel.Generated StepModel.Complex
 
-/-- the walk of `EntNode::lastSmaller` from position `k` with bound `v` -/
-def lsWalk (ns : Bool) (L : List Name) (v : Name) : Nat → Nat → Nat
-  | 0, k => k
-  | f + 1, k =>
-    match L[k]?, L[k + 1]? with
-    | some p, some e =>
-      if (if ns then (!decide (e < p) && !decide (e > v)) else (decide (e > p) && decide (e < v))) then lsWalk ns L v f (k + 1)
-      else k
-    | _, _ => k
+/-- the condition under which `EntNode::lastSmaller` steps from a node `p` to its successor `e` (bound `v`) -/
+def lsCond (ns : Bool) (p e v : Name) : Bool :=
+  if ns then (!decide (e < p) && !decide (e > v)) else (decide (e > p) && decide (e < v))
 
-/-- `L[j]->lastSmaller( v )`: `none` = NULL -/
-def lastSmallerFrom (ns : Bool) (L : List Name) (j : Nat) (v : Name) : Option Nat :=
-  match L[j]? with
-  | none => none
-  | some a => if a > v then none else some (lsWalk ns L v L.length j)
+/-- the nodes `lastSmaller` walks over after a node `p`, and what is left of the list -/
+def chainSplit (ns : Bool) (v : Name) : Name → List Name → List Name × List Name
+  | _, [] => ([], [])
+  | p, e :: es =>
+    if lsCond ns p e v then
+      let r := chainSplit ns v e es
+      (e :: r.1, r.2)
+    else ([], e :: es)
 
-/-- one pass of the `while( next && *this > *next )` loop of `EntNode::sort` for `this = L[i]`; returns the new list and
-the new position of `this` -/
-def sortSwitch (ns : Bool) (L : List Name) (i : Nat) (v : Name) : Outcome (List Name × Nat) :=
-  match lastSmallerFrom ns L 0 v with
-  | some a1 =>
-    match L[a1 + 1]? with
-    | none => .crash .sortNullChunk
-    | some t =>
-      match lastSmallerFrom ns L (i + 1) t with
-      | none => .crash .sortNullChunk
-      | some b =>
-        let chunk := (L.drop (i + 1)).take (b - i)
-        .ok (L.take (a1 + 1) ++ chunk ++ (L.drop (a1 + 1)).take (i - a1) ++ L.drop (b + 1), i + chunk.length)
-  | none =>
-    match L[0]? with
-    | none => .crash .sortNullChunk
-    | some f0 =>
-      match lastSmallerFrom ns L (i + 1) f0 with
-      | none => .crash .sortNullChunk
-      | some b =>
-        let chunk := (L.drop (i + 1)).take (b - i)
-        .ok (chunk ++ L.take (i + 1) ++ L.drop (b + 1), i + chunk.length)
+/-- `l.head->lastSmaller( v )` on the linked list `l`: `none` = NULL, otherwise the nodes up to and including the
+answer, and the nodes behind it -/
+def lastSmallerL (ns : Bool) (l : List Name) (v : Name) : Option (List Name × List Name) :=
+  match l with
+  | [] => none
+  | h :: t => if h > v then none else
+      let r := chainSplit ns v h t
+      some (h :: r.1, r.2)
 
-/-- `EntNode::sort( &first )` called on the first node -/
-def sortFrom (ns : Bool) : Nat → List Name → Nat → Outcome (List Name)
+/-- `EntNode::sort( &first )`: `P` = the nodes from `*first` up to and including `this`, `R` = the nodes behind `this`.
+While the next node is smaller than `this`, it is moved — with the run `lastSmaller` finds behind it — to its place
+among the earlier nodes; then `sort` continues with the next node. -/
+def sortSeg (ns : Bool) : Nat → List Name → List Name → Outcome (List Name)
   | 0, _, _ => .outOfFuel
-  | f + 1, L, i =>
-    match L[i]?, L[i + 1]? with
-    | some a, some v =>
-      if a > v then
-        match sortSwitch ns L i v with
-        | .ok (L', i') => sortFrom ns f L' i'
-        | .crash c => .crash c
-        | .outOfFuel => .outOfFuel
-      else sortFrom ns f L (i + 1)
-    | _, _ => .ok L
+  | _ + 1, P, [] => .ok P
+  | f + 1, P, n :: R' =>
+    match P.getLast? with
+    | none => .crash .sortNullChunk
+    | some x =>
+      if x > n then
+        match lastSmallerL ns (P ++ n :: R') n with
+        | none =>
+          -- `*first > *next`: the run goes to the front
+          match P with
+          | [] => .crash .sortNullChunk
+          | f0 :: _ =>
+            match lastSmallerL ns (n :: R') f0 with
+            | none => .crash .sortNullChunk
+            | some (C, R'') => sortSeg ns f (C ++ P) R''
+        | some (A, B') =>
+          match B' with
+          | [] => .crash .sortNullChunk
+          | t :: _ =>
+            match lastSmallerL ns (n :: R') t with
+            | none => .crash .sortNullChunk
+            | some (C, R'') => sortSeg ns f (A ++ C ++ P.drop A.length) R''
+      else sortSeg ns f (P ++ [n]) R'
 
-def sortNodesWith (ns : Bool) (L : List Name) : Outcome (List Name) := sortFrom ns (2 * L.length * L.length + 8) L 0
+def sortNodesWith (ns : Bool) (L : List Name) : Outcome (List Name) :=
+  match L with
+  | [] => .ok []
+  | h :: t => sortSeg ns (t.length + 1) [h] t
 
 /-- `ents->sort( &ents )` as the source has it now -/
 def sortNodes (L : List Name) : Outcome (List Name) := sortNodesWith sortNonStrict L
